@@ -17,7 +17,7 @@ LEVEL = "exploration"
 TIERS = {"quick": dict(soups=6000, unicode=3000, binary=150, allkinds=4), "thorough": dict(soups=250000, unicode=100000, binary=3000, allkinds=5)}
 MINE = {"panic", "range", "message", "display"}
 TOO_BIG = re.compile(r"(\^|\*\*)[\s(+\-]*\d{3,}|[eE][+\-]?\d{4,}|\d{40,}")
-UNI = list("0123456789.eE+-*/^%(){}, \t") + list("abcdtomkszZ'°éü日本😀μΩ_\"=#~|\\<>[]!?:;&$@`") + [" ", " ", " ", "　", "\n", "\r", "\ufeff"]
+UNI = list("0123456789.eE+-*/^%(){}, \t") + list("abcdtomkszZ'°éü日本😀μΩ_\"=#~|\\<>[]!?:;&$@`") + [" ", " ", " ", "　", "\n", "\r", "\ufeff", "\x00", "\x01", "\x1b", "\x7f"]
 
 
 def soup(rnd, words, n):
